@@ -422,6 +422,89 @@ func main() {
 	r.States += st.Execs
 	r.Transitions += st.Points
 	r.Traces += st.Execs
+	// sizes: counts that cross the varint boundaries of the encoding (a command word is count<<3|id, so its
+	// boundaries are 16 and 2048; tag indexes, feature counts and lengths cross at 128 and 16384)
+	sizes := []int{1, 2, 3, 15, 16, 17, 127, 128, 129, 2047, 2048, 2049}
+	if !r.Quick() {
+		sizes = append(sizes, 16383, 16384, 16385, 262143, 262144, 262145)
+	}
+	st = r.ExploreSharded("sizes", fmt.Sprintf("7 dimensions (vertices of a line, points of a multi-point, rings of a polygon, polygons, features, distinct keys / values of a layer, layers) x %d counts around the varint boundaries: round trip", len(sizes)), mc.Opts{MaxDev: -1}, 16, func(c *mc.Ctx) {
+		dim := c.Choose(7)
+		si := c.Choose(len(sizes))
+		if !r.Owned(c, dim*len(sizes)+si) {
+			return
+		}
+		n := sizes[si]
+		if n > 20000 && dim >= 2 {
+			c.Skip() // the largest counts only for vertex and point lists
+			return
+		}
+		layer := &mvt.Layer{Name: "s", Version: 2, Extent: 4096}
+		ls := mvt.Layers{layer}
+		switch dim {
+		case 0:
+			l := make(orb.LineString, n+1)
+			for i := range l {
+				l[i] = orb.Point{float64(i%97 + i/97), float64((i * 7) % 89)}
+				if i > 0 && l[i] == l[i-1] {
+					l[i][1]++
+				}
+			}
+			layer.Features = []*geojson.Feature{geojson.NewFeature(l)}
+		case 1:
+			m := make(orb.MultiPoint, n+1)
+			for i := range m {
+				m[i] = orb.Point{float64(i % 101), float64(i / 101)}
+			}
+			layer.Features = []*geojson.Feature{geojson.NewFeature(m)}
+		case 2:
+			p := orb.Polygon{square(0, 0, float64(4*n+8), true)}
+			for i := 0; i < n; i++ {
+				p = append(p, square(float64(4*i+2), 2, 2, false))
+			}
+			layer.Features = []*geojson.Feature{geojson.NewFeature(p)}
+		case 3:
+			var mp orb.MultiPolygon
+			for i := 0; i <= n; i++ {
+				mp = append(mp, orb.Polygon{square(float64(4*i), 0, 2, true)})
+			}
+			layer.Features = []*geojson.Feature{geojson.NewFeature(mp)}
+		case 4:
+			for i := 0; i < n; i++ {
+				f := geojson.NewFeature(orb.Point{float64(i % 4096), float64(i / 4096)})
+				f.ID = float64(i)
+				f.Properties["n"] = float64(i % 3)
+				layer.Features = append(layer.Features, f)
+			}
+		case 5:
+			// n distinct keys and n distinct values spread over features of 3 properties each, the last
+			// feature re-using the first and the last table entries
+			var f *geojson.Feature
+			for i := 0; i < n; i++ {
+				if i%3 == 0 {
+					f = geojson.NewFeature(orb.Point{float64(i % 4096), 1})
+					layer.Features = append(layer.Features, f)
+				}
+				f.Properties[fmt.Sprintf("k%d", i)] = float64(i) + 0.5
+			}
+			last := geojson.NewFeature(orb.Point{5, 5})
+			last.Properties["k0"] = float64(n-1) + 0.5
+			last.Properties[fmt.Sprintf("k%d", n-1)] = 0.5
+			layer.Features = append(layer.Features, last)
+		case 6:
+			ls = nil
+			for i := 0; i < n; i++ {
+				f := geojson.NewFeature(orb.Point{float64(i % 4096), 2})
+				f.Properties["layer"] = float64(i)
+				ls = append(ls, &mvt.Layer{Name: fmt.Sprintf("l%d", i), Version: 2, Extent: 4096, Features: []*geojson.Feature{f}})
+			}
+		}
+		roundTrip(c, ls, fmt.Sprintf("dimension=%d count=%d", dim, n))
+		c.NonTrivial()
+	})
+	r.States += st.Execs
+	r.Transitions += st.Points
+	r.Traces += st.Execs
 	// map-order schedules: the encoder ranges over the property map; every order must give the same bytes
 	st = r.ExploreSharded("property-order", "property maps of 2..4 keys over typed values: every iteration order of the encoder's range over the map yields byte-identical tiles", mc.Opts{MaxDev: -1}, 16, func(c *mc.Ctx) {
 		n := 2 + c.Choose(3)
